@@ -51,6 +51,23 @@ var c10Fixed = [][]string{
 	{"ß", "SS", "Ss", "ss"},
 }
 
+// c10BigInput: thousands of distinct words with a few twins and uncapitalisable words among them.
+func c10BigInput(r *gen.R) []string {
+	n := r.Range(2048, 2600)
+	in := make([]string, 0, n+8)
+	for i := 0; i < n; i++ {
+		in = append(in, fmt.Sprintf("w%dx%c", i, 'a'+rune(i%26)))
+	}
+	for k := r.Range(1, 4); k > 0; k-- {
+		w := in[r.Intn(n)]
+		in = append(in, oracle.Title(w)) // capitalised twin of a listed word
+	}
+	if r.Bool() {
+		in = append(in, "4", "Paris")
+	}
+	return r.ShuffleStrings(in)
+}
+
 func c10Input(r *gen.R) []string {
 	if r.Chance(1, 8) {
 		return append([]string(nil), c10Fixed[r.Intn(len(c10Fixed))]...)
@@ -145,6 +162,10 @@ func c10Case(c *Ctx) {
 	}
 	for k := 0; k < per; k++ {
 		in := c10Input(c.R)
+		if k == per-1 && c.Case%4 == 1 {
+			in = c10BigInput(c.R)
+			c.Count("big_lists", 1)
+		}
 		if c.Case == 0 && k < len(c10Fixed) {
 			in = append([]string(nil), c10Fixed[k]...)
 		}
@@ -159,10 +180,14 @@ func c10Case(c *Ctx) {
 		}
 		c.Distinct("inputs", strings.Join(in, "\x00"))
 		ok := true
-		for rep := 0; rep < 32 && ok; rep++ {
+		reps := 32
+		if len(in) > 1000 {
+			reps = 6
+		}
+		for rep := 0; rep < reps && ok; rep++ {
 			ok = c10Construct(c, in, want, fmt.Sprintf("construction %d of the same slice", rep))
 		}
-		for rep := 0; rep < 32 && ok; rep++ {
+		for rep := 0; rep < reps && ok; rep++ {
 			perm := c.R.ShuffleStrings(in)
 			for m := c.R.Intn(3); m > 0; m-- {
 				perm = append(perm, perm[c.R.Intn(len(perm))])
